@@ -163,7 +163,7 @@ func groundInstances(assume []*Term, roots []*Term) []*Term {
 	var out []*Term
 	seenInst := map[*Term]bool{}
 	allTerms := append(append([]*Term{}, assume...), roots...)
-	for round := 0; round < 2; round++ {
+	for round := 0; round < instRounds; round++ {
 		// ground select/app terms, outside quantifier bodies
 		var grounds []*Term
 		seen := map[*Term]bool{}
@@ -197,6 +197,18 @@ func groundInstances(assume []*Term, roots []*Term) []*Term {
 			seen[t] = true
 			if isTriggerOp(t.Op) && !containsAny(t, allBound, gmemo) {
 				grounds = append(grounds, t)
+				// read over write: select(store(A, i, v), j) also reads A at j (when i != j); the
+				// quantified facts usually speak about A
+				if t.Op == "select" {
+					a, depth := t.Args[0], 0
+					for a.Op == "store" && depth < 8 {
+						a = a.Args[0]
+						depth++
+					}
+					if depth > 0 {
+						collect(Select(a, t.Args[1]))
+					}
+				}
 			}
 			for _, a := range t.Args {
 				collect(a) // also inside quantifier bodies: closed sub-terms there are ground terms
